@@ -43,7 +43,8 @@ MANIFEST = dict(
     text=("Executable Gallina model of npm.Resolve (install tree with hoisting, protected slots, reuse, latest/deprecated "
           "pick, bundles) parametric in the client; theorems for every client and root: edges satisfy their requirement, "
           "every kept requirement (characterised against the property text) has an edge or a node error, every node "
-          "reachable, pick rule, no panic; without derived packages: unique names per directory and every child filed "
+          "reachable, pick rule applied to every installed copy (freshness derived from the tree, its edge carries Selector), "
+          "no panic; without derived packages: unique names per directory and every child filed "
           "under its own package name below its parent; Node lookup lands on the edge target without derived packages, "
           "aliases, foreign-name answers and duplicate names, each of these four hypotheses shown necessary by a "
           "refuted statement with a replayed witness. Model tied to the "
